@@ -449,3 +449,26 @@ func ZZ_C15_pausedCanaryStillSized() {
 	nondet.Observe("error", err != nil)
 	nondet.Reach("C15.paused.by-condition", err == nil && st.Status.State == datadoghqv1alpha1.ExtendedDaemonSetStatusStateCanaryPaused)
 }
+
+// ZZ_C15_keptAcrossCanaryReplicaSets: "nodes selected earlier that are still valid are kept" — the
+// selection belongs to the ExtendedDaemonSet's canary, not to one replica set: when the template
+// is edited during a canary, the status still names the previous canary replica set and the nodes
+// chosen for it; the new canary runs on the same nodes.  Three plain nodes, one canary node,
+// an arbitrary node selected earlier, status.canary.replicaSet naming the current or an older
+// replica set.
+func ZZ_C15_keptAcrossCanaryReplicaSets() {
+	c, ds := zzCanaryStore(3, intstr.FromInt(1), -1)
+	earlier := nondet.String("selectedEarlier", "node0", "node1", "node2")
+	prevRS := nondet.String("status.canary.replicaSet", "foo-b", "foo-older")
+	ds.Status.Canary = &datadoghqv1alpha1.ExtendedDaemonSetStatusCanary{ReplicaSet: prevRS, Nodes: []string{earlier}}
+	ds.Status.State = datadoghqv1alpha1.ExtendedDaemonSetStatusStateCanary
+	_, err := zzReconcile(zzReconciler(c), "ns", "foo")
+	st := zzStoredEDS(c, "ns", "foo")
+	nondet.Assert("C15.across.noerror", err == nil)
+	if err != nil || st.Status.Canary == nil {
+		return
+	}
+	nondet.Assert("C15.across.names-current-replicaset", st.Status.Canary.ReplicaSet == "foo-b")
+	nondet.Assert("C15.across.earlier-node-kept", len(st.Status.Canary.Nodes) == 1 && st.Status.Canary.Nodes[0] == earlier)
+	nondet.Reach("C15.across.other-replicaset", prevRS == "foo-older" && earlier == "node2")
+}
